@@ -1,3 +1,4 @@
+import T4V.Text.LatticeArg
 /-!
 # Cell options (model): `ParseMCNPCell.parse_keywords`, `apply_but`, the `LIKE n BUT` loop of
 `parse_one_cell`
@@ -5,7 +6,9 @@
 Two layers:
 * tokens → items (`groupTokens`): the keyword tests of `parse_keywords` in their order (`startswith
   'imp'`, `'fill' in`, `'lat' in`, `'trcl' in`, `'u' in`, `'rho' in`, `'mat' in`, anything else is
-  skipped) with the arguments each keyword pops; the array form of FILL (`a:b …`) is outside the model;
+  skipped) with the arguments each keyword pops; the array form of FILL (`i1:i2 j1:j2 … u1 u2 …`, `parse_fill_kw` with
+  `parse_ranges` and `expand_data_card(expected = number of elements, dtype = 'int')`) with plain numbers and the `nR`
+  repetition (the other shorthands — `nI`, `xM`, `nJ`, `LOG` — are outside the model: `arrayShorthand`);
 * items → record (`applyItems`): a left fold of assignments — the later keyword wins; importances are
   kept per particle, the later value of a particle wins.
 `LIKE n BUT opts` is `apply_but`: the options of cell n followed by `opts`.
@@ -19,7 +22,14 @@ inductive Item where
   | rho (v : String)
   | lat (v : String)
   | fill (star : Bool) (univ : String) (params : List String)
+  | fillArr (star : Bool) (ranges : List String) (univs : List String) (params : List String)
   | trcl (star : Bool) (params : List String)
+deriving Repr, DecidableEq, Inhabited
+
+/-- what a FILL keyword assigned: one universe, or index ranges with one universe per element -/
+inductive FillVal where
+  | simple (star : Bool) (univ : String) (params : List String)
+  | arr (star : Bool) (ranges : List String) (univs : List String) (params : List String)
 deriving Repr, DecidableEq, Inhabited
 
 structure KW where
@@ -28,7 +38,7 @@ structure KW where
   mat : Option String := none
   rho : Option String := none
   lat : Option String := none
-  fill : Option (Bool × String × List String) := none
+  fill : Option FillVal := none
   trcl : Option (Bool × List String) := none
 deriving Repr, DecidableEq, Inhabited
 
@@ -42,7 +52,8 @@ def KW.set (k : KW) : Item → KW
   | .mat v => { k with mat := some v }
   | .rho v => { k with rho := some v }
   | .lat v => { k with lat := some v }
-  | .fill s u ps => { k with fill := some (s, u, ps) }
+  | .fill s u ps => { k with fill := some (.simple s u ps) }
+  | .fillArr s rs us ps => { k with fill := some (.arr s rs us ps) }
   | .trcl s ps => { k with trcl := some (s, ps) }
 
 def applyFrom (k : KW) (is : List Item) : KW := is.foldl KW.set k
@@ -52,7 +63,7 @@ def applyItems (is : List Item) : KW := applyFrom {} is
 inductive Field | imp | u | mat | rho | lat | fill | trcl deriving DecidableEq, Repr
 def Item.field : Item → Field
   | .imp .. => .imp | .u .. => .u | .mat .. => .mat | .rho .. => .rho | .lat .. => .lat
-  | .fill .. => .fill | .trcl .. => .trcl
+  | .fill .. => .fill | .fillArr .. => .fill | .trcl .. => .trcl
 
 def isSub (needle hay : List Char) : Bool :=
   match hay with
@@ -67,7 +78,45 @@ def numericLead (s : String) : Bool :=
   | c :: _ => "0123456789.+-".toList.contains c
   | [] => false          -- (an empty token cannot come out of `str.split()`)
 
-inductive KwErr | pop | arrayFill | badLat deriving Repr, DecidableEq
+inductive KwErr | pop | badLat
+  | badRange                 -- `parse_ranges` raises (not two bounds, a bound that is not an integer)
+  | arrayCount               -- not exactly as many universes as elements (`expected …`), or a token that is no number
+  | arrayShorthand           -- a shorthand outside the model
+deriving Repr, DecidableEq
+
+/-- number of elements of the index ranges (`LatticeBounds.size`; may be ≤ 0 when a range runs backwards) -/
+def rangesSize (rs : List String) : Except KwErr Int :=
+  match LA.parseRanges (rs.map String.toList) with
+  | .error _ => .error .badRange
+  | .ok bs => .ok (bs.foldl (fun acc b => acc * (b.2 - b.1 + 1)) 1)
+
+/-- one token of the universe list: a number, or `nR` / `R` repeating the last entry -/
+inductive UTok | num | rep (n : Nat) | shorthand | bad
+deriving Repr, DecidableEq
+
+def isNumberText (cs : List Char) : Bool :=
+  -- what `to_float` reads: [sign] digits [. digits] [exponent], at least one digit in the mantissa
+  let t := match cs with | '+' :: r => r | '-' :: r => r | r => r
+  let ip := t.takeWhile Char.isDigit
+  let r1 := t.dropWhile Char.isDigit
+  let (fr, r2) := match r1 with | '.' :: r => (r.takeWhile Char.isDigit, r.dropWhile Char.isDigit) | r => ([], r)
+  (!(ip.isEmpty && fr.isEmpty)) &&
+  (match r2 with
+   | [] => true
+   | e :: r =>
+     let ex := match (if e == 'e' || e == 'd' then r else e :: r) with | '+' :: q => q | '-' :: q => q | q => q
+     (e == 'e' || e == 'd' || e == '+' || e == '-') && !ex.isEmpty && ex.all Char.isDigit)
+
+def classifyU (tok : String) : UTok :=
+  let cs := tok.toList
+  match cs.getLast? with
+  | none => .bad
+  | some last =>
+    let body := cs.dropLast
+    if last == 'r' then
+      (if body.isEmpty then .rep 1 else if body.all Char.isDigit then .rep (String.ofList body).toNat! else .bad)
+    else if last == 'i' || last == 'm' || last == 'j' || last == 'g' then .shorthand
+    else if isNumberText cs then .num else .bad
 
 /-- what `parse_keywords` is waiting for after the tokens read so far -/
 inductive KwState where
@@ -76,6 +125,10 @@ inductive KwState where
   | wantU | wantMat | wantRho | wantLat        -- after a one-argument keyword
   | fillFirst (star : Bool)                    -- after `fill` / `*fill`: the universe (or the first range)
   | fillNums (star : Bool) (univ : String) (acc : List String)   -- numeric arguments of FILL, greedy
+  | fillRng (star : Bool) (ranges : List String)                 -- the index ranges of an array FILL
+  | fillArr (star : Bool) (ranges : List String) (need : Int) (us : List String)   -- its universes, `need` expected
+  | fillArrNums (star : Bool) (ranges : List String) (us : List String) (acc : List String)   -- then numbers, greedy
+  | fillDrop (star : Bool) (ranges : List String)   -- ranges without elements: `del kw_list[-0:]` empties the list
   | trclNums (star : Bool) (acc : List String)                   -- numeric arguments of TRCL, greedy
 deriving Repr, DecidableEq
 
@@ -91,6 +144,25 @@ def startKeyword (elt : String) : KwState :=
   else if contains elt "mat" then .wantMat
   else .idle                                   -- any other token is skipped
 
+/-- a token read while the numeric arguments of an array FILL are collected -/
+def arrNums (star : Bool) (rs us : List String) (acc : List Item) (tok : String) (ns : List String := []) :
+    Except KwErr (KwState × List Item) :=
+  if numericLead tok then .ok (.fillArrNums star rs us (ns ++ [tok]), acc)
+  else .ok (startKeyword tok, acc ++ [.fillArr star rs us ns])
+
+/-- a token of the universe list (fewer than `need` entries so far) -/
+def arrTok (star : Bool) (rs : List String) (need : Int) (us : List String) (acc : List Item) (tok : String) :
+    Except KwErr (KwState × List Item) :=
+  let after (us' : List String) : Except KwErr (KwState × List Item) :=
+    if (us'.length : Int) < need then .ok (.fillArr star rs need us', acc)
+    else if (us'.length : Int) == need then .ok (.fillArrNums star rs us' [], acc)
+    else .error .arrayCount
+  match classifyU tok with
+  | .num => after (us ++ [tok])
+  | .rep n => (match us.getLast? with | none => .error .arrayCount | some v => after (us ++ List.replicate n v))
+  | .shorthand => .error .arrayShorthand
+  | .bad => .error .arrayCount
+
 /-- one token -/
 def kwStep (st : KwState × List Item) (tok : String) : Except KwErr (KwState × List Item) :=
   match st with
@@ -102,7 +174,18 @@ def kwStep (st : KwState × List Item) (tok : String) : Except KwErr (KwState ×
   | (.wantLat, acc) =>
       -- `parse_lat_kw`: the value must read as the integer 1 or 2 (checked when the keyword is met)
       if tok.toInt? == some 1 || tok.toInt? == some 2 then .ok (.idle, acc ++ [.lat tok]) else .error .badLat
-  | (.fillFirst star, acc) => if contains tok ":" then .error .arrayFill else .ok (.fillNums star tok [], acc)
+  | (.fillFirst star, acc) => if contains tok ":" then .ok (.fillRng star [tok], acc) else .ok (.fillNums star tok [], acc)
+  | (.fillRng star rs, acc) =>
+      if contains tok ":" then .ok (.fillRng star (rs ++ [tok]), acc) else
+      match rangesSize rs with
+      | .error e => .error e
+      | .ok need =>
+        -- `expand_data_card(rest, expected = need)`: nothing is read when no element is expected
+        if need ≤ 0 then (if need == 0 then .ok (.fillDrop star rs, acc) else .error .arrayCount)
+        else arrTok star rs need [] acc tok
+  | (.fillArr star rs need us, acc) => arrTok star rs need us acc tok
+  | (.fillArrNums star rs us ns, acc) => arrNums star rs us acc tok ns
+  | (.fillDrop star rs, acc) => .ok (.fillDrop star rs, acc)
   | (.fillNums star u ns, acc) =>
       if numericLead tok then .ok (.fillNums star u (ns ++ [tok]), acc)
       else .ok (startKeyword tok, acc ++ [.fill star u ns])
@@ -120,6 +203,14 @@ def kwFinish (st : KwState × List Item) : Except KwErr (List Item) :=
   | (.idle, acc) => .ok acc
   | (.fillNums star u ns, acc) => .ok (acc ++ [.fill star u ns])
   | (.trclNums star ns, acc) => .ok (acc ++ [.trcl star ns])
+  | (.fillArrNums star rs us ns, acc) => .ok (acc ++ [.fillArr star rs us ns])
+  | (.fillDrop star rs, acc) => .ok (acc ++ [.fillArr star rs [] []])
+  | (.fillRng star rs, acc) =>
+      -- ranges, then nothing: fine only when no element is expected
+      (match rangesSize rs with
+       | .error e => .error e
+       | .ok need => if need == 0 then .ok (acc ++ [.fillArr star rs [] []]) else .error .arrayCount)
+  | (.fillArr .., _) => .error .arrayCount
   | _ => .error .pop
 
 /-- `parse_keywords` up to the assignment of the record: tokens in reading order -/
